@@ -169,7 +169,7 @@ func scenarios(tier string) []scen {
 	}
 	for _, d := range world.SweepSites(tier) {
 		for _, ca := range [][2]int{{1, 1}, {1, 2}} {
-			out = append(out, scen{Def: d, Opt: world.Options{Workers: ca[0], MaxConcurrentAssets: ca[1], MaxRetry: 1, MaxRedirect: 2}, P: sweepP})
+			out = append(out, scen{Def: d, Opt: world.Options{Workers: ca[0], MaxConcurrentAssets: ca[1], MaxRetry: 1, MaxRedirect: 2, ExcludeHosts: []string{"excluded.example"}}, P: sweepP})
 		}
 	}
 	for _, ds := range world.DepthSites() {
